@@ -71,7 +71,7 @@ theorem reset_ok {W : Nat} (hW : 0 < W) (s : St) (h : s.WInv W) :
     · intro k
       show bitAt W (Array.setIfInBounds _ _ _) k = _
       unfold bitAt
-      rw [getD_setIfInBounds, getD_mapIdx_zero, Array.size_mapIdx]
+      rw [getD_setIfInBounds', getD_mapIdx_zero, Array.size_mapIdx]
       have hk' := div_mod_decomp hW k
       by_cases hk : B / W = k / W
       · rw [if_pos ⟨hk, hfl⟩, Nat.testBit_and, testBit_shlW, testBit_allOnes]
